@@ -291,6 +291,7 @@ def _make_simlink_class():
             self.tx = []            # (time, port, channel, bytes, closed?)
             self.rx_log = []
             self.last_due = 0.0
+            self.muted = False
             self.order = []         # ('tx'|'rx', index into tx / rx_log) in the order things happened
             self.wakeup = dsched._Waitable()
             self.exchanged = 0
@@ -319,10 +320,20 @@ def _make_simlink_class():
                     if not self.closed and not w.fault_fired and w.net.fault:
                         w.fault_fired = True
                         sch = dsched.Sched.active
-                        busy = False
-                        for lt in sch.threads:
-                            if lt.name.startswith('_IncomingPacketHandler') and lt.state != dsched.DONE:
-                                busy = not (lt.state == dsched.BLOCKED and (lt.waiting_on is self.wakeup or lt.idle))
+                        def _busy():
+                            b = False
+                            for lt in sch.threads:
+                                if lt.name.startswith('_IncomingPacketHandler') and lt.state != dsched.DONE:
+                                    b = not (lt.state == dsched.BLOCKED and (lt.waiting_on is self.wakeup or lt.idle))
+                            return b
+                        if self.muted:
+                            for _ in range(20000):
+                                if not _busy() or self.closed:
+                                    break
+                                sch.sleep(0.0001)
+                            if self.closed:
+                                return
+                        busy = _busy()
                         w.fault_context = {'dispatcher_busy': busy, 'time': sch.now}
                         n0 = len(self.rx_log)
                         self.err_cb('injected link error (driver thread)')
@@ -339,7 +350,11 @@ def _make_simlink_class():
             w = self.world
             f = w.net.fault
             if f and not w.fault_fired and self.session == f.get('session', 0) and self.exchanged >= f['k']:
-                if f['reporter'] == 'driver':
+                if f['reporter'] in ('driver', 'driver-quiet'):
+                    if f['reporter'] == 'driver-quiet':
+                        # the link is dead from this instant: nothing more is delivered or transmitted, and the error is
+                        # reported once the dispatcher has finished with what it already has (no race with the dispatch)
+                        self.muted = True
                     if self._fault_event is not None and not self._fault_event.is_set():
                         self._fault_event.set()
                     return None
@@ -357,12 +372,15 @@ def _make_simlink_class():
             port, channel = (hdr & 0xF0) >> 4, hdr & 0x03
             self.tx.append((s.now, port, channel, data, closed_at_entry))
             self.order.append(('tx', len(self.tx) - 1))
-            if self.closed:
+            if self.closed or self.muted:
                 return
             if w.on_send:
                 w.on_send(self, pk)
             if self._count() == 'sender':
                 w.fault_fired = True
+                # the library hands such an error to a thread of its own: whether the dispatcher is in the middle of a
+                # dispatch while it is processed is looked at when that processing closes the link (see close())
+                w.fault_context = {'dispatcher_busy': False, 'time': s.now, 'sender': True, 'rx0': len(self.rx_log)}
                 self.err_cb('injected link error (sending thread)')
                 return
             i = w.req_index
@@ -406,7 +424,7 @@ def _make_simlink_class():
                     if wait and wait > 0 and s.now < deadline:
                         s.block(None, deadline - s.now, idle=True)
                     return None
-                if self.pending and self.pending[0][0] <= s.now:
+                if self.pending and self.pending[0][0] <= s.now and not self.muted:
                     due, _, (port, ch, data), guard = heapq.heappop(self.pending)
                     if guard is not None and not guard():
                         self.world.suppressed += 1
@@ -425,7 +443,7 @@ def _make_simlink_class():
                 if wait == 0 or s.now >= deadline:
                     return None
                 t = deadline - s.now
-                if self.pending:
+                if self.pending and not self.muted:
                     t = min(t, self.pending[0][0] - s.now)
                 self.wakeup.waiters.append(s.me())
                 s.block(self.wakeup, t, idle=not self.pending)
@@ -433,6 +451,14 @@ def _make_simlink_class():
         def close(self):
             s = dsched.Sched.active
             s.yield_point()
+            ctx = self.world.fault_context
+            if ctx.get('sender') and not self.closed and not ctx.get('judged'):
+                ctx['judged'] = True
+                me = s.me()
+                for lt in s.threads:
+                    if lt.name.startswith('_IncomingPacketHandler') and lt.state != dsched.DONE and lt is not me:
+                        if not (lt.state == dsched.BLOCKED and (lt.waiting_on is self.wakeup or lt.idle)) or len(self.rx_log) > ctx['rx0']:
+                            ctx['dispatcher_busy'] = True
             self.closed = True
             if self._fault_event is not None and not self._fault_event.is_set():
                 self._fault_event.set()
